@@ -318,6 +318,26 @@ Theorem C03_nested_altered_file_detected : forall Hb matches C cdig h0 kids hs t
 Proof. exact nested_altered_detected. Qed.
 Print Assumptions C03_nested_altered_file_detected.
 
+(* ... a file its history has never recorded is named as new; an entry some generation of some history recorded, gone
+   from the tree and not ignored, is named as missing *)
+Theorem C03_nested_new_file_detected : forall Hb matches C cdig h0 kids hs ipats ifile p c r,
+  load C cdig (Dir h0 kids) = inl hs -> nprev hs ->
+  In (p, c) (ev_files (events matches C (set_patterns (latest_patterns (lh_gens (root_hist hs))) ipats (pattern_file_lines ifile)) [] (Dir h0 kids))) ->
+  find_original (lh_gens (route_to hs p)) (strip_prefix (lh_root (route_to hs p)) p) = None ->
+  verify_result Hb matches C cdig false (Dir h0 kids) ipats ifile = Some r ->
+  In p (vr_new r) /\ (vr_code r = 11%Z \/ vr_code r = 21%Z) /\ (vr_mismatch r = [] -> vr_code r = 21%Z).
+Proof. exact nested_new_detected. Qed.
+Print Assumptions C03_nested_new_file_detected.
+Theorem C03_nested_removed_entry_detected : forall Hb matches C cdig h0 kids hs ipats ifile h g rec r,
+  load C cdig (Dir h0 kids) = inl hs -> nprev hs ->
+  let spec := set_patterns (latest_patterns (lh_gens (root_hist hs))) ipats (pattern_file_lines ifile) in
+  In h hs -> In g (lh_gens h) -> In rec (g_records g) ->
+  ~ In (lh_root h ++ r_path rec) (visited (events matches C spec [] (Dir h0 kids))) -> ignored matches spec (lh_root h ++ r_path rec) = false ->
+  verify_result Hb matches C cdig false (Dir h0 kids) ipats ifile = Some r ->
+  In (lh_root h ++ r_path rec) (vr_missing r) /\ vr_code r <> 0%Z /\ (vr_mismatch r = [] -> vr_new r = [] -> vr_code r = 10%Z).
+Proof. exact nested_removed_detected. Qed.
+Print Assumptions C03_nested_removed_entry_detected.
+
 (* create -sf over any nesting: the run never aborts, whatever is named (every named file is sealed once, in the history it
    belongs to, so each record holds one decision); and when every recorded digest is current it exits 0 *)
 Theorem C03_nested_sf_never_aborts : forall Hb matches C cdig ser h0 kids hs req sf ip ifl,
